@@ -289,8 +289,29 @@ _WRAP = re.compile(r'\b(?:numpy::)?(?:aligned_array|array_base|array)\s*<[^;{}()
                    r'\bintegral_image_type\s*\(')
 
 
+def wrapper_building_helpers(repo: Path) -> list[str]:
+    """names of helper classes (struct X { X(PyArrayObject* ...) { ... aligned_array<T> v(arr); ... } }) whose
+    constructor builds a reference-counted array wrapper: constructing such a helper inside a released region
+    touches a reference count without the lock although no wrapper is visible at the site"""
+    out = []
+    for g in CPP_GLOBS:
+        for p in sorted(repo.glob(g)):
+            t = strip_cpp(p.read_text(errors='replace'))
+            for m in re.finditer(r'\bstruct\s+(\w+)\s*\{', t):
+                name = m.group(1)
+                end = _match_brace(t, m.end() - 1)
+                body = t[m.end():end]
+                for c in re.finditer(r'\b' + name + r'\s*\(\s*PyArrayObject\s*\*[^)]*\)[^{;]*\{', body):
+                    ce = _match_brace(body, c.end() - 1)
+                    if re.search(r'\b(?:numpy::)?(?:aligned_array|array_base)\s*<[^;{}()]*>\s*\w+\s*\(', body[c.end():ce]):
+                        out.append(name)
+    return sorted(set(out))
+
+
 def extract_gil_sites(repo: Path):
     sites = []
+    helpers = wrapper_building_helpers(repo)
+    helper_re = re.compile(r'\b(?:' + '|'.join(map(re.escape, helpers)) + r')\s*<[^;{}()]*>\s*\w+\s*\(') if helpers else None
     for g in CPP_GLOBS:
         for p in sorted(repo.glob(g)):
             rel = str(p.relative_to(repo))
@@ -339,6 +360,7 @@ def extract_gil_sites(repo: Path):
                 calls = [c.group(1) for c in _INTERP_CALL.finditer(reg2)]
                 calls = [c for c in calls if re.sub(r'\s*<.*', '', c) not in PURE_PY_MACROS]
                 wraps = len(_WRAP.findall(reg2))
+                helper_wraps = len(helper_re.findall(reg2)) if helper_re else 0
                 # for idiom (a): is every call of the kernel inside a try / SAFE_SWITCH of this file?
                 caught = True
                 if idiom == 'a':
@@ -360,7 +382,7 @@ def extract_gil_sites(repo: Path):
                             # macro-dispatched: the py_ function that expands it must use SAFE_SWITCH/try
                             caught = bool(re.search(r'SAFE_SWITCH_ON_|\btry\b', text))
                 sites.append(dict(file=rel, func=func, line=text.count('\n', 0, m.start()) + 1, idiom=idiom,
-                                  first=bool(first_stmt), restores=restores, interp_calls=calls, wraps=wraps,
+                                  first=bool(first_stmt), restores=restores, interp_calls=calls, wraps=wraps, helper_wraps=helper_wraps,
                                   caught=bool(caught)))
     if len(sites) < 30:
         raise TranslationError(f'only {len(sites)} gil_release sites found')
@@ -503,6 +525,7 @@ def generate(repo: Path, outdir: Path) -> dict:
          '  interpCalls : Nat        -- Python C-API calls lexically inside the released region (after cutting `restore(); ...; return`)',
          '  wrappers : Nat           -- array wrappers (reference counted) constructed lexically inside the released region',
          '  caught : Bool            -- idiom (a): every entry point that calls the kernel does so inside try/SAFE_SWITCH',
+         '  helperWrappers : Nat     -- helper objects constructed inside the released region whose constructor builds a wrapper (filter_iterator)',
          '  deriving Repr, DecidableEq', '',
          'def statics : List StaticObj := [']
     rows = []
@@ -519,7 +542,7 @@ def generate(repo: Path, outdir: Path) -> dict:
     idi = {'a': 0, 'b': 1, 'c': 2}
     L.append(',\n'.join(
         f'  ⟨{_s(s["file"])}, {_s(s["func"])}, {s["line"]}, {idi[s["idiom"]]}, {_b(s["first"])}, {s["restores"]}, '
-        f'{len(s["interp_calls"])}, {s["wraps"]}, {_b(s["caught"])}⟩' for s in sites))
+        f'{len(s["interp_calls"])}, {s["wraps"]}, {_b(s["caught"])}, {s["helper_wraps"]}⟩' for s in sites))
     L.append(']')
     L.append('')
     L.append('end Mahotas.Generated')
@@ -529,6 +552,7 @@ def generate(repo: Path, outdir: Path) -> dict:
                 statics_py=len(pys), gil_sites=len(sites),
                 gil_sites_by_idiom={k: sum(1 for s in sites if s['idiom'] == k) for k in 'abc'},
                 gil_sites_wrappers_inside=sum(1 for s in sites if s['wraps']),
+                gil_sites_helper_wrappers_inside=sum(1 for s in sites if s['helper_wraps']),
                 statics_changed=changed)
 
 
